@@ -19,6 +19,7 @@ private:
     Goldilocks::Element *powTwoInv;
     Goldilocks::Element *r;
     Goldilocks::Element *r_;
+    u_int64_t rN = 0;
     int extension;
 
     static u_int32_t log2(u_int64_t size)
@@ -153,6 +154,12 @@ public:
     inline void computeR(int N)
     {
         u_int64_t domainPow = log2(N);
+        if (r != NULL)
+        {
+            delete[] r;
+            delete[] r_;
+        }
+        rN = N;
         r = new Goldilocks::Element[N];
         r_ = new Goldilocks::Element[N];
         r[0] = Goldilocks::one();
